@@ -20,8 +20,9 @@ class Injected(Exception):
 # ------------------------------------------------------------------ canonical <-> real objects
 def mk_ref(k):
     r = Reference()
-    # bibliography entries as they come: 100..111 go in pairs that differ only by consortium (the same submission by
-    # two consortia), 112..119 in triples of different papers filed under one PubMed id (a corrected entry)
+    # bibliography entries as they come. 100..111 go in pairs (even, odd) that are the same paper but for one field:
+    # 100-103 the consortium, 104-107 the REMARK (comment), 108-111 the base range the entry refers to; 112..119 are
+    # triples of different papers filed under one PubMed id (a corrected entry)
     base = k - k % 2 if 100 <= k < 112 else k
     if base % 4 == 0:
         # the reference every GenBank submission carries: one title, no identifier — told apart only by authors / journal
@@ -30,7 +31,13 @@ def mk_ref(k):
     else:
         r.title = "ref{}".format(base)
     r.authors = "A{}".format(base)
-    r.consrtm = "C{}".format(k)
+    r.consrtm = "C{}".format(base if 104 <= k < 112 else k)
+    if 104 <= k < 108:
+        r.comment = "remark {}".format(k)
+    if 108 <= k < 112:
+        r.location = [SimpleLocation(0, 10 + k)]
+    elif k >= 112 and k % 5 == 3:
+        r.location = [SimpleLocation(1, 9)]
     if 112 <= k < 120:
         r.pubmed_id = "PM{}".format(k // 3)
     return r
@@ -40,10 +47,9 @@ def ref_id(r):
     if isinstance(r, Reference):
         m = re.fullmatch(r"C(\d+)", r.consrtm or "")
         if m:
-            k = int(m.group(1))
-            want = mk_ref(k)
-            if (r.title, r.journal, r.authors, r.pubmed_id) == (want.title, want.journal, want.authors, want.pubmed_id):
-                return k
+            for k in (int(m.group(1)), int(m.group(1)) + 1):
+                if mk_ref(k) == r:
+                    return k
     return None
 
 
@@ -71,6 +77,8 @@ def mk_loc(parts, fuzzy=False, operator="join"):
 def mk_feature(f):
     if f.qual.startswith("u"):
         quals = {"label": ["q" + f.qual[1:]]}
+        if f.qual[1:].isdigit() and int(f.qual[1:]) % 6 == 2:
+            quals["pseudo"] = [""]          # a GenBank flag qualifier (no value): part of the feature like any other
     elif f.qual.startswith("s"):
         quals = src_quals(int(f.qual[1:]))
     else:
@@ -100,9 +108,11 @@ def canon_feature(feat):
         else:
             cs.append("x" + re.sub(r"[\s|;,^+]", "_", repr(c))[:40])
     qual = None
-    if list(quals) == ["label"] and isinstance(quals["label"], list) and len(quals["label"]) == 1 \
-            and re.fullmatch(r"q\d+", quals["label"][0]):
-        qual = "u" + quals["label"][0][1:]
+    lab_ = quals.get("label")
+    if isinstance(lab_, list) and len(lab_) == 1 and isinstance(lab_[0], str) and re.fullmatch(r"q\d+", lab_[0]) \
+            and sorted(quals) == (["label", "pseudo"] if int(lab_[0][1:]) % 6 == 2 else ["label"]) \
+            and quals.get("pseudo", [""]) == [""]:
+        qual = "u" + lab_[0][1:]
     else:
         m = re.fullmatch(r"r(\d+)", str(quals.get("plasmid", "")))
         if m and quals == src_quals(int(m.group(1))):
@@ -246,9 +256,12 @@ def generic_classes(enz):
     return _generic_cache[enz]
 
 
+FAULT_EXC = [None]          # C07 sets KeyboardInterrupt here to model Ctrl-C during an extraction
+
+
 def faulty_subclass(cls):
     def boom(self):
-        raise Injected("injected fault")
+        raise (FAULT_EXC[0] or Injected)("injected fault")
     return type("Faulty" + cls.__name__, (cls,), {"target_sequence": boom})
 
 
@@ -522,6 +535,10 @@ def run_asm(op, entities=None):
             out = None
         except Exception as e:  # noqa
             out = ["err", err_name(e)]
+        except KeyboardInterrupt:
+            if FAULT_EXC[0] is not KeyboardInterrupt:
+                raise
+            out = ["err", "injected"]          # the injected interrupt: same outcome class as the injected error
     if out is None:
         unused = []
         for wn in wl:
